@@ -72,9 +72,11 @@ def run():
         for y in jsongen.LETTERS:
             pair_at[(x, y)] = len(cases)
             cases.append((('{"#%s":["v"],"#%s":["w"]}' % (x, y)).encode(), 'accept' if x != y else 'reject', None))
-    for sz in (3, 10, 31, 32):
+    for sz in (3, 10, 31, 32, 33, 40, 51, 52):
         ls = rng.sample(jsongen.LETTERS, sz)
         cases.append((('{' + ','.join('"#%s":["%s"]' % (l, l) for l in ls) + '}').encode(), 'accept', {('#' + l): [l] for l in ls}))
+        # ... and the same set followed by one letter again: a duplicate, wherever the table of tag members ends
+        cases.append((('{' + ','.join('"#%s":["%s"]' % (l, l) for l in ls + [rng.choice(ls)]) + '}').encode(), 'reject', None))
     # integers
     for name, vals in (('limit', [0, 2 ** 32 - 1, 2 ** 32, 2 ** 32 + 5, 2 ** 64 - 1, 2 ** 64, 10 ** 30]),
                        ('since', [0, 2 ** 64 - 1, 2 ** 64, 2 ** 64 + 7, 10 ** 30]), ('until', [0, 2 ** 64 - 1, 2 ** 64, 10 ** 25])):
